@@ -1,7 +1,7 @@
 (* One entry point for the correspondence check: a request (an S-expression naming a stage and its input) is
    decoded, run through the model, and the observable encoded back.  Used extracted (driver/) and inside Coq. *)
 From Coq Require Import List String Ascii Bool NArith.
-From Yae Require Import Base.Sexp Model.Ty Model.Unify Model.Lexer Model.Literal Model.Cst Model.Pratt Model.Desugar Model.Check Model.Num Model.Val Model.Render.
+From Yae Require Import Base.Sexp Model.Ty Gen.Generated Model.Unify Model.Lexer Model.Literal Model.Cst Model.Pratt Model.Desugar Model.Check Model.Num Model.Val Model.Render Model.Builtins Model.Eval.
 Import ListNotations.
 Open Scope string_scope.
 
@@ -153,6 +153,82 @@ Definition run_valeq (args : list sexp) : sexp :=
   | _ => bad
   end.
 
+(* ---- evaluation from source: lex, parse, desugar, check, evaluate ---- *)
+Definition builtin_operators : list operator :=
+  map (fun x => mkOp (fst (fst x)) (snd (fst x)) (snd x)) builtin_ops.
+
+Definition dec_venv (s : sexp) : option venv :=
+  match s with
+  | L l => mapM (fun x => match x with L [n; v] => do n' <- dName n; do v' <- dec_val v; Some (n', v') | _ => None end) l
+  | _ => None
+  end.
+
+(* oracle tables shipped with the request: ((strtotime ((bytes) secs) ...) (regex ((pattern) (subject) T|F|E) ...)) *)
+Definition dec_oracles (s : sexp) : option oracles :=
+  match s with
+  | L [L (A "strtotime" :: ts); L (A "regex" :: rs)] =>
+      do tbl_t <- mapM (fun x => match x with L [k; v] => do k' <- dNs k; do v' <- dZ v; Some (k', v') | _ => None end) ts;
+      do tbl_r <- mapM (fun x => match x with
+                              | L [p; su; r] => do p' <- dNs p; do su' <- dNs su;
+                                  do r' <- (if tag_is r "T" then Some (Some true) else if tag_is r "F" then Some (Some false)
+                                            else if tag_is r "E" then Some None else None);
+                                  Some (p', su', r')
+                              | _ => None end) rs;
+      Some (mkOracles (fun k => match kget k tbl_t with Some z => z | None => Z0 end)
+                      (fun p su => match find (fun x => list_eqb (fst (fst x)) p && list_eqb (snd (fst x)) su) tbl_r with
+                                   | Some x => snd x | None => None end))
+  | _ => None
+  end.
+
+Definition failk_name (k : failk) : string :=
+  match k with FIndex => "fail:index" | FKey => "fail:key" | FModZero => "fail:modzero" | FRegex => "fail:regex" | FHost => "fail:host" end.
+Definition faultk_name (k : faultk) : string :=
+  match k with XTypeConf => "fault:typeconf" | XNil => "fault:nil" | XUnderflow => "fault:underflow" | XOpcode => "fault:opcode"
+             | XUnreachable => "fault:unreachable" | XLimit => "fault:limit" | XFuel => "fault:fuel" | XOther => "fault:other" end.
+
+Definition sort_entries (l : list (list N * val)) : list (list N * val) := sort_by fst l.
+
+Definition enc_host_events (t : list event) : sexp :=
+  L (flat_map (fun e => match e with
+                        | EvHost n args => [L (eName n :: map (fun v => enc_val (canon_val sort_entries v)) args)]
+                        | EvStdout _ => []
+                        end) t).
+Definition stdout_of (t : list event) : list N :=
+  flat_map (fun e => match e with EvStdout s => s | _ => [] end) t.
+
+Definition enc_outcome (m : M val) : sexp :=
+  match m with
+  | (t, OVal v) => L [A "value"; enc_val (canon_val sort_entries v); enc_host_events t]
+  | (t, OFail k) => L [A (failk_name k); enc_host_events t]
+  | (t, OFault k) => L [A (faultk_name k); enc_host_events t]
+  end.
+
+(* front end shared by all back ends: Some (annotated tree, type) or None = compile error *)
+Definition compile_src (fe : fenv) (te : tenv) (src : list N) : option (aexpr * ty) :=
+  match parse_source builtin_operators src with
+  | POk e =>
+      match desugar e with
+      | Some d => match check fe te big_fuel 1000000000 d with COk r => Some r | _ => None end
+      | None => None
+      end
+  | _ => None
+  end.
+
+(* (evalsrc history tenv venv oracles src) *)
+Definition run_evalsrc (args : list sexp) : sexp :=
+  match args with
+  | [h; te; ve; orc; src] =>
+      match dec_fenv h, dec_tenv te, dec_venv ve, dec_oracles orc, dNs src with
+      | Some fe, Some te', Some ve', Some orc', Some src' =>
+          match compile_src fe te' src' with
+          | None => L [A "compile-error"; L []]
+          | Some (a, _) => enc_outcome (eval ops orc' fe ve' 5000 a)
+          end
+      | _, _, _, _, _ => bad
+      end
+  | _ => bad
+  end.
+
 Definition dispatch (req : sexp) : sexp :=
   match req with
   | L (A tag :: args) =>
@@ -171,6 +247,7 @@ Definition dispatch (req : sexp) : sexp :=
       else if tag =? "stringify" then run_stringify args
       else if tag =? "key" then run_key args
       else if tag =? "valeq" then run_valeq args
+      else if tag =? "evalsrc" then run_evalsrc args
       else bad
   | _ => bad
   end.
